@@ -287,7 +287,7 @@ pub fn prefix_num(p: Prefix) -> u8 {
 pub fn build(st: &MState) -> Emu {
     let mut c = Cfg::new(st.m128);
     c.sound = true;
-    c.ay = st.ay.as_ref().map_or(st.m128, |a| a.enabled);
+    c.ay = st.ay.as_ref().map_or(false, |a| a.enabled);
     c.kempston = st.kemp;
     c.mouse = st.mouse;
     let mut e = emu(&c);
@@ -315,7 +315,8 @@ pub fn build(st: &MState) -> Emu {
     }
     e.verif_write_io(0x00FE, st.border & 7);
     if let Some(ay) = &st.ay {
-        if ay.enabled {
+        // the ports reach the chip whether or not it is mixed in
+        {
             for k in 0..14u8 {
                 e.verif_write_io(0xFFFD, k);
                 e.verif_write_io(0xBFFD, ay.regs[k as usize]);
@@ -433,7 +434,6 @@ pub fn observe(e: &mut Emu, m128: bool) -> BTreeMap<String, String> {
             m.insert(k.to_string(), v.to_string());
         }
     }
-    let clocks = e.verif_frame_clocks();
     let (halt, skip, pfx) = {
         let c = e.verif_cpu();
         (c.halted, c.skip_interrupt, prefix_num(c.verif_active_prefix()))
@@ -447,8 +447,8 @@ pub fn observe(e: &mut Emu, m128: bool) -> BTreeMap<String, String> {
     m.insert("lk".into(), ((m128 && !enabled) as u8).to_string());
     m.insert("sb".into(), sb.to_string());
     m.insert("bd".into(), format!("{:02x}", e.border_color() as u8));
+    // (the frame clock is never moved backwards: the screen device assumes monotone time in a frame)
     m.insert("pages".into(), obs_pages(e, m128).join(","));
-    e.verif_set_frame_clocks(clocks);
     m
 }
 
@@ -480,7 +480,7 @@ pub fn diff_obs(
                     out.push((format!("page{}", n), a.to_string(), b.to_string()));
                 }
             }
-        } else if g != w {
+        } else if g != w && g != "?" {
             out.push((k.to_string(), g, w));
         }
     }
